@@ -3,6 +3,12 @@
 cd "$(dirname "$0")" || exit 1
 export GOFLAGS=-mod=mod GOPROXY=off GOSUMDB=off GOTOOLCHAIN=local
 mkdir -p .build evidence
-go build -tags verif -o .build/vcheck.main ./cmd/vcheck || exit 1
-go build -tags verif -race -o .build/vcheck.main-race ./cmd/vcheck || exit 1
+for d in cmd/c*/; do
+  id=$(basename "$d")
+  go build -tags verif -o ".build/$id.main" "./cmd/$id" || exit 1
+done
+# the race-detector flavour (C09, C10, C16, C18): warms the -race standard library
+for id in c09 c10 c16 c18; do
+  [ -d "cmd/$id" ] && { go build -tags verif -race -o ".build/$id.main-race" "./cmd/$id" || exit 1; }
+done
 echo setup ok
